@@ -432,6 +432,10 @@ type PassedCall struct {
 	Call *ssa.Call
 	Idx  int
 	Want *ssa.Const
+	// Not: when Want is nil, the result is known to differ from each of these constants (the
+	// default arm of a switch over an enum-valued classifier): the returns that remain possible
+	// are those yielding any other constant
+	Not []*ssa.Const
 }
 
 // PassedValidators lists the calls of repository functions one of whose results is known,
@@ -444,6 +448,9 @@ func (p *Program) PassedValidators(b *ssa.BasicBlock) []PassedCall {
 // closure's creation site added to those of the block).
 func (p *Program) PassedValidatorsIn(facts []CondFact) []PassedCall {
 	var out []PassedCall
+	positive := map[*ssa.Call]bool{}
+	excluded := map[exclKey][]*ssa.Const{}
+	var exclOrder []exclKey
 	resultOf := func(v ssa.Value) (*ssa.Call, int, bool) {
 		v = Resolve(v)
 		if ex, isEx := v.(*ssa.Extract); isEx {
@@ -471,9 +478,10 @@ func (p *Program) PassedValidatorsIn(facts []CondFact) []PassedCall {
 			continue
 		}
 		bin, ok := f.Cond.(*ssa.BinOp)
-		if !ok || !((bin.Op == token.NEQ && !f.Polarity) || (bin.Op == token.EQL && f.Polarity)) {
+		if !ok || (bin.Op != token.NEQ && bin.Op != token.EQL) {
 			continue
 		}
+		equal := (bin.Op == token.NEQ && !f.Polarity) || (bin.Op == token.EQL && f.Polarity)
 		var ev ssa.Value
 		var k *ssa.Const
 		if c, isK := bin.Y.(*ssa.Const); isK {
@@ -484,10 +492,29 @@ func (p *Program) PassedValidatorsIn(facts []CondFact) []PassedCall {
 			continue
 		}
 		if c, idx, ok := resultOf(ev); ok {
-			out = append(out, PassedCall{Call: c, Idx: idx, Want: k})
+			if equal {
+				out = append(out, PassedCall{Call: c, Idx: idx, Want: k})
+				positive[c] = true
+			} else if k.Value != nil {
+				key := exclKey{c, idx}
+				if _, seen := excluded[key]; !seen {
+					exclOrder = append(exclOrder, key)
+				}
+				excluded[key] = append(excluded[key], k)
+			}
+		}
+	}
+	for _, key := range exclOrder {
+		if !positive[key.call] {
+			out = append(out, PassedCall{Call: key.call, Idx: key.idx, Not: excluded[key]})
 		}
 	}
 	return out
+}
+
+type exclKey struct {
+	call *ssa.Call
+	idx  int
 }
 
 // SuccessReturns lists the returns of the callee at which the result in question is the
@@ -503,10 +530,25 @@ func (pc PassedCall) SuccessReturns() []ssa.Instruction {
 		}
 		e := Resolve(r.Results[pc.Idx])
 		if k, isK := e.(*ssa.Const); isK {
+			if pc.Want == nil {
+				hit := false
+				for _, nk := range pc.Not {
+					if sameConst(k, nk) {
+						hit = true
+					}
+				}
+				if !hit {
+					out = append(out, r)
+				}
+				continue
+			}
 			if sameConst(k, pc.Want) {
 				out = append(out, r)
 			}
 			continue
+		}
+		if pc.Want == nil {
+			return nil // an excluded-constants summary needs every return to be a constant
 		}
 		if _, isPhi := e.(*ssa.Phi); isPhi {
 			return nil
